@@ -1,8 +1,128 @@
 package main
 
-import "fmt"
+import (
+	"bytes"
+	"fmt"
+	"go/ast"
+	"go/parser"
+	"go/printer"
+	"go/token"
+	"os"
+	"path/filepath"
+	"strconv"
+	"strings"
+)
 
-// rewrite is filled in by the scheduler / vfs engines.
+// harnessRoot is where the shim packages live.
+func harnessRoot() string {
+	wd, _ := os.Getwd()
+	return wd // bin/build runs the tool from /verif/harness
+}
+
+// mountShim maps every .go file of harness/shim/<name> into <repo>/<name>/ (a virtual package
+// github.com/ohler55/slip/<name>).
+func mountShim(name, repo string, replace map[string]string) ([]string, error) {
+	dir := filepath.Join(harnessRoot(), "shim", name)
+	ents, err := os.ReadDir(dir)
+	if err != nil {
+		return nil, err
+	}
+	var rep []string
+	for _, e := range ents {
+		if e.IsDir() || !strings.HasSuffix(e.Name(), ".go") || strings.HasSuffix(e.Name(), "_test.go") {
+			continue
+		}
+		target := filepath.Join(repo, name, e.Name())
+		if _, serr := os.Stat(target); serr == nil {
+			return nil, fmt.Errorf("shim file would replace existing %s", target)
+		}
+		replace[target] = filepath.Join(dir, e.Name())
+		rep = append(rep, "mount "+name+"/"+e.Name())
+	}
+	return rep, nil
+}
+
+// rewriteImport parses file, and if it imports `from`, changes that import to
+// `alias "to"`; returns the new source or nil when nothing changed.
+func rewriteImport(fset *token.FileSet, f *ast.File, from, alias, to string) bool {
+	changed := false
+	for _, imp := range f.Imports {
+		p, _ := strconv.Unquote(imp.Path.Value)
+		if p != from {
+			continue
+		}
+		if imp.Name != nil && imp.Name.Name != alias {
+			// keep the file's own alias
+			imp.Path.Value = strconv.Quote(to)
+		} else {
+			imp.Name = ast.NewIdent(alias)
+			imp.Path.Value = strconv.Quote(to)
+		}
+		changed = true
+	}
+	return changed
+}
+
+func writeOut(fset *token.FileSet, f *ast.File, repo, out, path string, replace map[string]string) error {
+	var buf bytes.Buffer
+	if err := (&printer.Config{Mode: printer.UseSpaces | printer.TabIndent, Tabwidth: 8}).Fprint(&buf, fset, f); err != nil {
+		return err
+	}
+	rel, _ := filepath.Rel(repo, path)
+	dst := filepath.Join(out, "src", rel)
+	if err := os.MkdirAll(filepath.Dir(dst), 0o755); err != nil {
+		return err
+	}
+	if err := os.WriteFile(dst, buf.Bytes(), 0o644); err != nil {
+		return err
+	}
+	replace[path] = dst
+	return nil
+}
+
+func goFiles(dir string) []string {
+	ents, _ := os.ReadDir(dir)
+	var out []string
+	for _, e := range ents {
+		n := e.Name()
+		if e.IsDir() || !strings.HasSuffix(n, ".go") || strings.HasSuffix(n, "_test.go") {
+			continue
+		}
+		out = append(out, filepath.Join(dir, n))
+	}
+	return out
+}
+
+// vfsSkip lists pkg/repl files that keep the real os (terminal handling only).
+var vfsSkip = map[string]bool{"bindings.go": true, "edit-stash.go": true, "editor.go": true}
+
 func rewrite(engine, repo, out string, replace map[string]string) ([]string, error) {
-	return nil, fmt.Errorf("engine %q not implemented yet", engine)
+	switch engine {
+	case "vfs":
+		rep, err := mountShim("vfs", repo, replace)
+		if err != nil {
+			return nil, err
+		}
+		for _, path := range goFiles(filepath.Join(repo, "pkg", "repl")) {
+			if vfsSkip[filepath.Base(path)] {
+				rep = append(rep, "keep-os pkg/repl/"+filepath.Base(path))
+				continue
+			}
+			fset := token.NewFileSet()
+			f, perr := parser.ParseFile(fset, path, nil, parser.ParseComments)
+			if perr != nil {
+				return nil, perr
+			}
+			if rewriteImport(fset, f, "os", "os", "github.com/ohler55/slip/vfs") {
+				if err = writeOut(fset, f, repo, out, path, replace); err != nil {
+					return nil, err
+				}
+				rep = append(rep, "os->vfs pkg/repl/"+filepath.Base(path))
+			}
+		}
+		return rep, nil
+	case "sched":
+		return rewriteSched(repo, out, replace)
+	}
+	return nil, fmt.Errorf("engine %q not implemented", engine)
 }
